@@ -27,7 +27,19 @@ def main(tier, seed):
     items += families.examples(s=120, names={'hello', 'max', 'factor', 'optional_max', 'ouroboros', 'sat', 'mergesort'})
     # unchecked twins of a slice
     unch = []
-    for it in items[::6 if quick else 5]:
+    # (an unchecked build is only defined on inputs whose checked run raises no fault: the fast VM pre-selects them, so
+    # that no time goes into runs that are discarded afterwards - a wild unchecked run can be very long)
+    from hv import svm, sasm, runner as _runner, hidc_api
+    def _fault_free(it):
+        ck, lines = _runner.compile_cached(it)
+        if isinstance(lines, Exception):
+            return False
+        try:
+            vm = svm.VM(sasm.Program(lines, it.args), max_steps=8000, full_cycle=False).run()
+            return vm.status != 'fuel' and not (set(vm.flags()) & FAULTS)
+        except Exception:
+            return False
+    for it in [x for x in items[::6 if quick else 5] if _fault_free(x)]:
         unch.append(families.runner.Item(it.key + ('unchecked',), it.src, it.args, w=it.w, s=it.s, unchecked=True,
                                          meta=dict(it.meta, family=it.meta['family'] + ':unchecked')))
     items += unch
